@@ -1,7 +1,7 @@
 #!/bin/bash
 # tools/fuzz.sh setup            unpack both offline cargo registry caches into /verif/vendor (git-ignored)
 # tools/fuzz.sh build [target]   cargo +nightly fuzz build (ASan, debug assertions) against /repo's working tree
-# tools/fuzz.sh run <target> [runs] [seed]   run a target for a fixed number of executions
+# tools/fuzz.sh run <target> [runs] [seed]   run a target of fuzz/targets.tsv for a fixed number of executions (default: the table's)
 # A crash artifact (fuzz/artifacts/<target>/crash-*) is the raw case bytes: replay with
 #   ./check <ID> --replay <file made by tools/fuzz.sh replayfile <target> <artifact>>
 set -eu
@@ -31,28 +31,43 @@ case "$cmd" in
     RUSTFLAGS="--cfg metrics_verif" cargo +nightly fuzz build --fuzz-dir "$ROOT/fuzz" ${1:-}
     ;;
   run)
-    t="$1"; runs="${2:-200000}"; seed="${3:-${VERIF_SEED:-1}}"
-    cd "$ROOT/fuzz"; mkdir -p "corpus/$t"
-    # seed corpus: the committed regression replays of the same lane (raw case bytes)
-    python3 - "$ROOT" "$t" <<'PY' || true
-import json,glob,sys,os,re
-root,t=sys.argv[1:3]
-src=open(f"{root}/fuzz/fuzz_targets/{t}.rs").read()
-m=re.search(r'fuzz_one\("(C\d+)", "([^"]+)"',src)
-if m:
-    pid,lane=m.groups()
-    for f in glob.glob(f"{root}/replays/{pid}/*.json"):
-        v=json.load(open(f))
-        if v.get("lane")==lane and v.get("bytes_hex") is not None:
-            open(f"{root}/fuzz/corpus/{t}/seed-{os.path.basename(f)}","wb").write(bytes.fromhex(v["bytes_hex"]))
+    t="$1"
+    row="$(grep -P "^$t\t" "$ROOT/fuzz/targets.tsv" || true)"
+    [ -n "$row" ] || { echo "unknown target $t (see fuzz/targets.tsv)"; exit 2; }
+    pid="$(echo "$row" | cut -f2)"; lane="$(echo "$row" | cut -f3)"; split="$(echo "$row" | cut -f4)"
+    runs="${2:-$(echo "$row" | cut -f5)}"; seed="${3:-${VERIF_SEED:-1}}"; maxlen="$(echo "$row" | cut -f6)"
+    # a fresh corpus per run (VERIF_FUZZ_KEEP_CORPUS=1 keeps what earlier runs found), so that a run is as much a function
+    # of the tree and the seed as libFuzzer allows
+    cd "$ROOT/fuzz"; [ -n "${VERIF_FUZZ_KEEP_CORPUS:-}" ] || rm -rf "corpus/$t"; mkdir -p "corpus/$t"
+    # seed corpus: the committed regression replays of the same lane (raw case bytes, schedule appended for split targets)
+    python3 - "$ROOT" "$t" "$pid" "$lane" "$split" <<'PY' || true
+import json,glob,sys,os
+root,t,pid,lane,split=sys.argv[1:6]
+for f in glob.glob(f"{root}/replays/{pid}/*.json"):
+    v=json.load(open(f))
+    if v.get("lane")==lane and v.get("bytes_hex") is not None:
+        b=bytes.fromhex(v["bytes_hex"]); s=bytes.fromhex(v.get("sched_hex") or "")
+        if split=="1":
+            if len(b)>255: continue
+            b=bytes([len(b)])+b+s
+        open(f"{root}/fuzz/corpus/{t}/seed-{os.path.basename(f)}","wb").write(b)
 PY
-    VERIF_ROOT="$ROOT" RUSTFLAGS="--cfg metrics_verif" cargo +nightly fuzz run --fuzz-dir "$ROOT/fuzz" "$t" -- -runs="$runs" -seed="$seed" -len_control=0 -max_len=512 -print_final_stats=1
+    VERIF_ROOT="$ROOT" RUSTFLAGS="--cfg metrics_verif" cargo +nightly fuzz run --fuzz-dir "$ROOT/fuzz" "$t" -- -runs="$runs" -seed="$seed" -len_control=0 -max_len="$maxlen" -print_final_stats=1
     ;;
   replayfile)
     t="$1"; art="$2"
-    id="$(echo "$t" | cut -d_ -f1 | tr a-z A-Z)"; lane="$(grep -o "fuzz_one(\"$id\", \"[^\"]*\"" "$ROOT/fuzz/fuzz_targets/$t.rs" | sed 's/.*, "//; s/"//')"
+    row="$(grep -P "^$t\t" "$ROOT/fuzz/targets.tsv")"
+    id="$(echo "$row" | cut -f2)"; lane="$(echo "$row" | cut -f3)"; split="$(echo "$row" | cut -f4)"
     out="$ROOT/replays/out/$id-fuzz-$(basename "$art").json"; mkdir -p "$ROOT/replays/out"
-    python3 -c "import json,sys; b=open(sys.argv[1],'rb').read(); json.dump({'property':sys.argv[2],'lane':sys.argv[3],'engine':'libFuzzer','bytes_hex':b.hex(),'sched_hex':'','expect':'pass'},open(sys.argv[4],'w'),indent=1)" "$art" "$id" "$lane" "$out"
+    python3 - "$art" "$id" "$lane" "$out" "$split" <<'PY'
+import json,sys
+art,pid,lane,out,split=sys.argv[1:6]
+b=open(art,'rb').read(); s=b""
+if split=="1":
+    n=b[0] if b else 0
+    rest=b[1:]; n=min(n,len(rest)); b,s=rest[:n],rest[n:]
+json.dump({'property':pid,'lane':lane,'engine':'libFuzzer','bytes_hex':b.hex(),'sched_hex':s.hex(),'expect':'pass'},open(out,'w'),indent=1)
+PY
     echo "$out"
     ;;
   *) echo "usage: fuzz.sh setup|build [target]|run <target> [runs] [seed]|replayfile <target> <artifact>"; exit 2;;
